@@ -24,6 +24,18 @@
 //!   * long histories [`-long`]: every word of length 1..=3 over the narrow alphabet repeated
 //!     cyclically up to length 40 / 120 (pm; engine: words of length <= 2): positions with dozens of
 //!     fills, dozens of consecutive closes / flips (anything that depends on the length of the history).
+//!   * sizes that differ in the 24th decimal only [`-dust`]: qty{1e-24, 1, 1+1e-24} x price{100,110} x
+//!     fee{0,0.3}: a reduction of 1+d by 1 leaves d, a fill of 1+d against 1 crosses zero by d, a fill of 1
+//!     against 1+d does NOT reach zero (R1 / R2 are exact: a net quantity of 1e-24 is not zero). pm 4/5,
+//!     engine 3/4.
+//!   * the audit of a fill next to algo orders [`+algo`]: the engine layer once more with trading
+//!     ENABLED and a strategy that proposes an order (on the other instrument) after every even-numbered
+//!     fill, so the `PositionExit` shares the audit's outputs with the algo output. engine-narrow 4/5.
+//!     [`+algoX`]: the same with the execution link closed - the audit of the fill also carries the
+//!     unrecoverable error of the algo step; the order is proposed after the k-th fill only and the
+//!     sequence ends there (k = 0..3 / 0..4).
+//!   * very long histories [`-vlong`]: words of length <= 2 (engine: 1) over the narrow alphabet repeated
+//!     to 1100 / 4200 fills (positions listing more than 1024 / 4096 fills).
 //!
 //! The oracle is a cash-flow ledger computed from the fills only (never from the implementation):
 //! net signed quantity, sum of sell proceeds, sum of buy cost, sum of fees. Rules (each one is a
@@ -62,7 +74,11 @@ use barter::{
 };
 use barter_execution::{
     AccountEvent, AccountEventKind,
-    order::id::OrderId,
+    order::{
+        OrderKey, OrderKind, TimeInForce,
+        id::{ClientOrderId, OrderId},
+        request::{OrderRequestOpen, RequestOpen},
+    },
     trade::{AssetFees, Trade, TradeId},
 };
 use barter_instrument::{
@@ -84,12 +100,18 @@ const FEE: [Decimal; 2] = [dec!(0), dec!(0.3)];
 /// quantities of the `-mixed` alphabet (index `q` of a `Fill`): 16 orders of magnitude inside one sequence
 const QTY_MIXED: [Decimal; 3] = [dec!(0.00000001), dec!(1), dec!(100000000)];
 
-/// Which symbols `alphabet` offers (a `Fill` holds indices; `Mixed` reads `q` from QTY_MIXED).
+/// quantities of the `-dust` alphabet: d = 1e-24, 1 and 1 + d. Remainders of d (reduce 1+d by 1, flip 1
+/// by 1+d), positions of d, increases by d: sizes that differ from zero / from each other only in the
+/// 24th decimal ("tiny magnitudes": the net quantity is exact, not "equal up to an epsilon")
+const QTY_DUST: [Decimal; 3] = [dec!(0.000000000000000000000001), dec!(1), dec!(1.000000000000000000000001)];
+
+/// Which symbols `alphabet` offers (a `Fill` holds indices; `Mixed` / `Dust` read `q` from QTY_MIXED / QTY_DUST).
 #[derive(Debug, Clone, Copy, PartialEq, Eq)]
 pub enum Alpha {
     Full,
     Narrow,
     Mixed,
+    Dust,
 }
 
 /// How the n-th fill of a sequence is time-stamped (seconds relative to t0).
@@ -213,8 +235,17 @@ pub struct M {
     /// Narrow = qty{1,2} x price{100,110} x fee{0,0.3} (16 symbols) for the deeper bound
     alpha: Alpha,
     times: Times,
-    /// label infix of the long-history layer
+    /// label infix of the long-history layers (`-long`, `-vlong`)
     long: bool,
+    vlong: bool,
+    /// engine layer only: trading is ENABLED and the strategy proposes an order (on the OTHER instrument)
+    /// on every even-numbered fill, so the audit of the fill also carries the algo output (`+algo`);
+    /// 2 (`+algoX`): the same with the execution link CLOSED, so the audit of the fill also carries an
+    /// unrecoverable error of the algo step - there the strategy proposes its order after fill number
+    /// `algo_at` only and the sequence ENDS with that fill (what an engine does after a fatal error is
+    /// not the statement's business). 0: trading disabled.
+    algo: u8,
+    algo_at: usize,
     scale: Scale,
     instruments: IndexedInstruments,
     instrument: InstrumentIndex,
@@ -236,6 +267,9 @@ impl M {
             alpha,
             times,
             long: false,
+            vlong: false,
+            algo: 0,
+            algo_at: 0,
             scale,
             instruments,
             // the second instrument, so that index != 0
@@ -246,14 +280,17 @@ impl M {
     }
     pub fn label(&self) -> String {
         format!(
-            "{}{}{}{}/{}",
+            "{}{}{}{}{}{}/{}",
             if self.engine_layer { "engine" } else { "pm" },
             match self.alpha {
                 Alpha::Full => "",
                 Alpha::Narrow => "-narrow",
                 Alpha::Mixed => "-mixed",
+                Alpha::Dust => "-dust",
             },
-            if self.long { "-long" } else { "" },
+            if self.vlong { "-vlong" } else if self.long { "-long" } else { "" },
+            ["", "+algo", "+algoX"][self.algo as usize],
+            if self.algo == 2 { self.algo_at.to_string() } else { String::new() },
             self.times.name(),
             self.scale.name
         )
@@ -270,6 +307,8 @@ impl M {
         };
         let alpha = if layer.contains("-mixed") {
             Alpha::Mixed
+        } else if layer.contains("-dust") {
+            Alpha::Dust
         } else if layer.contains("-narrow") {
             Alpha::Narrow
         } else {
@@ -277,13 +316,24 @@ impl M {
         };
         let mut m = Self::with(layer.starts_with("engine"), alpha, times, scale);
         m.long = layer.contains("-long");
+        m.vlong = layer.contains("-vlong");
+        m.algo = if layer.contains("+algoX") { 2 } else if layer.contains("+algo") { 1 } else { 0 };
+        if let Some((_, rest)) = layer.split_once("+algoX") {
+            m.algo_at = rest.chars().take_while(|c| c.is_ascii_digit()).collect::<String>().parse().unwrap_or(0);
+        }
         m
     }
 
     fn trade(&self, f: &Fill, n: usize) -> Trade<QuoteAsset, InstrumentIndex> {
-        let q = if self.alpha == Alpha::Mixed { QTY_MIXED[f.q as usize] } else { QTY[f.q as usize] } * self.scale.q;
+        let q = match self.alpha {
+            Alpha::Mixed => QTY_MIXED[f.q as usize],
+            Alpha::Dust => QTY_DUST[f.q as usize],
+            _ => QTY[f.q as usize],
+        } * self.scale.q;
         let p = PRICE[f.p as usize] * self.scale.p;
-        let fee = FEE[f.f as usize] * self.scale.q * self.scale.p;
+        // (`-dust`: the fee is proportional to the quantity, as a venue's would be - a fee of 0.3 on a
+        // notional of 1e-22 makes a return of 1e21 whose square overflows the tear sheet's statistics)
+        let fee = FEE[f.f as usize] * self.scale.q * self.scale.p * if self.alpha == Alpha::Dust { q } else { Decimal::ONE };
         Trade {
             id: TradeId::new(format!("f{n}")),
             order_id: OrderId::new("o"),
@@ -302,10 +352,35 @@ impl M {
         &self,
         subject: &mut Subject,
         trade: &Trade<QuoteAsset, InstrumentIndex>,
+        n: usize,
     ) -> Vec<PositionExited<QuoteAsset, InstrumentIndex>> {
         match subject {
             Subject::Pm(pm) => pm.update_from_trade(trade).into_iter().collect(),
             Subject::Engine(e) => {
+                if self.algo > 0 {
+                    // what the strategy proposes after this event: a fresh limit order on instrument 0
+                    // (not the instrument under test) on even steps, nothing on odd steps
+                    let proposes = if self.algo == 2 { n == self.algo_at } else { n % 2 == 0 };
+                    e.0.strategy.opens = if proposes {
+                        vec![OrderRequestOpen {
+                            key: OrderKey {
+                                exchange: ExchangeIndex(0),
+                                instrument: InstrumentIndex(0),
+                                strategy: strategy_id(),
+                                cid: ClientOrderId::new(format!("a{n}")),
+                            },
+                            state: RequestOpen {
+                                side: Side::Buy,
+                                price: dec!(50),
+                                quantity: dec!(1),
+                                kind: OrderKind::Limit,
+                                time_in_force: TimeInForce::GoodUntilCancelled { post_only: false },
+                            },
+                        }]
+                    } else {
+                        vec![]
+                    };
+                }
                 let event: Event = EngineEvent::Account(AccountStreamEvent::Item(AccountEvent {
                     exchange: ExchangeIndex(0),
                     kind: AccountEventKind::Trade(trade.clone()),
@@ -346,7 +421,9 @@ impl SeqModel for M {
 
     fn init(&self) -> St {
         let subject = if self.engine_layer {
-            let (engine, _links) = build_engine(&self.instruments, TradingState::Disabled, &[]);
+            let trading = if self.algo > 0 { TradingState::Enabled } else { TradingState::Disabled };
+            let links = if self.algo == 2 { vec![Some(TxMode::Closed)] } else { vec![] };
+            let (engine, _links) = build_engine(&self.instruments, trading, &links);
             Subject::Engine(Box::new(Eng(engine)))
         } else {
             Subject::Pm(PositionManager::default())
@@ -354,15 +431,16 @@ impl SeqModel for M {
         St { subject, ledger: Ledger::default(), dead: false }
     }
 
-    fn alphabet(&self, s: &St, _hist: &[Fill]) -> Vec<Fill> {
-        if s.dead {
+    fn alphabet(&self, s: &St, hist: &[Fill]) -> Vec<Fill> {
+        // (`+algoX`: the fill whose audit carried the fatal error was the last one)
+        if s.dead || (self.algo == 2 && hist.len() > self.algo_at) {
             return vec![];
         }
         let mut v = Vec::with_capacity(36);
         // simplest first: fee 0, qty 1
         let (qs, ps) = match self.alpha {
             Alpha::Narrow => (0..2u8, 1..3u8),
-            Alpha::Mixed => (0..3u8, 1..3u8),
+            Alpha::Mixed | Alpha::Dust => (0..3u8, 1..3u8),
             Alpha::Full => (0..3u8, 0..3u8),
         };
         for f in 0..FEE.len() as u8 {
@@ -412,7 +490,7 @@ impl SeqModel for M {
         let before_ids: Vec<TradeId> =
             current(&s.subject, &self.instrument).map(|p| p.trades.clone()).unwrap_or_default();
         let subject = &mut s.subject;
-        let closed = match catch_unwind(AssertUnwindSafe(|| self.apply(subject, &trade))) {
+        let closed = match catch_unwind(AssertUnwindSafe(|| self.apply(subject, &trade, hist.len()))) {
             Ok(c) => c,
             Err(_) => {
                 out.push((format!("C02/panic/{a}"), format!("the position code panicked on fill {trade:?}")));
@@ -492,7 +570,9 @@ impl SeqModel for M {
             None => (Decimal::ZERO, Decimal::ZERO, Decimal::ZERO),
         };
         let resid = (l.closed_pnl + open_pnl) - (l.proceeds - l.cost - l.fees + open_val);
-        if (resid - l.resid_pnl).abs() > tol {
+        // (a step whose closed record is missing / surplus is already reported by R2: the sums over the
+        // records are then off by that record - no second family of signatures for the same defect)
+        if closed_ok && (resid - l.resid_pnl).abs() > tol {
             out.push((
                 format!("C02/pnl-conservation/{a}"),
                 format!(
@@ -503,7 +583,7 @@ impl SeqModel for M {
         }
         l.resid_pnl = resid;
         let resid_fee = l.closed_fees + open_fees - l.fees;
-        if (resid_fee - l.resid_fee).abs() > tol {
+        if closed_ok && (resid_fee - l.resid_fee).abs() > tol {
             out.push((
                 format!("C02/fees-conservation/{a}"),
                 format!(
@@ -517,10 +597,21 @@ impl SeqModel for M {
         // ---- R6: the fill id is recorded against the positions it affected, and only those
         // (as sets; `before_ids` = the ids the open position listed before this fill)
         let mut ids_check = |what: &str, got: &[TradeId], with_before: bool| {
-            let wanted = |x: &TradeId| *x == trade.id || (with_before && before_ids.contains(x));
-            let has_id = got.contains(&trade.id);
+            // fast path (long histories): exactly the earlier ids followed by this fill's id is correct
+            let nb = if with_before { before_ids.len() } else { 0 };
+            if got.len() == nb + 1 && got[nb] == trade.id && got[..nb] == before_ids[..nb] {
+                return;
+            }
+            // (hash sets for the long-history layers, linear scans otherwise)
+            let big = before_ids.len() > 48;
+            let before_set: std::collections::HashSet<&TradeId> = if big { before_ids.iter().collect() } else { Default::default() };
+            let got_set: std::collections::HashSet<&TradeId> = if big { got.iter().collect() } else { Default::default() };
+            let in_before = |x: &TradeId| if big { before_set.contains(x) } else { before_ids.contains(x) };
+            let in_got = |x: &TradeId| if big { got_set.contains(x) } else { got.contains(x) };
+            let wanted = |x: &TradeId| *x == trade.id || (with_before && in_before(x));
+            let has_id = in_got(&trade.id);
             let foreign = got.iter().any(|x| !wanted(x));
-            let lost = with_before && before_ids.iter().any(|x| !got.contains(x));
+            let lost = with_before && before_ids.iter().any(|x| !in_got(x));
             if !has_id || foreign || lost {
                 let cause = if !has_id {
                     "fill-id-missing"
@@ -616,6 +707,8 @@ fn run_long(ctx: &Ctx, m: &M, max_word: usize, len: usize) -> (u64, u64, usize) 
 pub fn run(ctx: &Ctx) -> Outcome {
     // (engine layer?, alphabet, time stamps, scale, depth)
     let mut plan: Vec<(bool, Alpha, Times, Scale, usize)> = Vec::new();
+    // configurations with trading enabled and a strategy that proposes orders (engine layer only)
+    let mut plan_algo: Vec<(Alpha, usize, u8, usize)> = Vec::new();
     let (pm_full, pm_narrow, eng_full, eng_narrow) = ctx.tier.pick((4, 6, 3, 4), (5, 7, 4, 5));
     for (k, sc) in SCALES.iter().enumerate() {
         // the magnitude variants do not need the deepest bound
@@ -636,6 +729,15 @@ pub fn run(ctx: &Ctx) -> Outcome {
     // magnitudes mixed inside one sequence
     plan.push((false, Alpha::Mixed, Times::Inc, SCALES[0], ctx.tier.pick(4, 5)));
     plan.push((true, Alpha::Mixed, Times::Inc, SCALES[0], ctx.tier.pick(3, 4)));
+    // sizes that differ only in the 24th decimal
+    plan.push((false, Alpha::Dust, Times::Inc, SCALES[0], ctx.tier.pick(4, 5)));
+    plan.push((true, Alpha::Dust, Times::Inc, SCALES[0], ctx.tier.pick(3, 4)));
+    // the audit of a fill that also carries algo orders
+    plan_algo.push((Alpha::Narrow, ctx.tier.pick(4, 5), 1, 0));
+    // ... and an unrecoverable error of the algo step (execution link closed) on the k-th, last, fill
+    for k in 0..ctx.tier.pick(4, 5) {
+        plan_algo.push((Alpha::Narrow, k + 1, 2, k));
+    }
 
     let mut evaluations = 0u64;
     let mut sequences = 0u64;
@@ -657,8 +759,18 @@ pub fn run(ctx: &Ctx) -> Outcome {
             "closed_records_emitted": closed,
         }));
     };
-    for (engine_layer, alpha, times, scale, depth) in plan {
-        let m = M::with(engine_layer, alpha, times, scale);
+    let plan: Vec<(bool, Alpha, Times, Scale, usize, u8)> = plan
+        .into_iter()
+        .map(|(e, a, t, s, d)| (e, a, t, s, d, 0))
+        .chain(plan_algo.iter().map(|(a, d, algo, _)| (true, *a, Times::Inc, SCALES[0], *d, *algo)))
+        .collect();
+    let mut algo_at = plan_algo.iter().filter(|p| p.2 == 2).map(|p| p.3);
+    for (engine_layer, alpha, times, scale, depth, algo) in plan {
+        let mut m = M::with(engine_layer, alpha, times, scale);
+        m.algo = algo;
+        if algo == 2 {
+            m.algo_at = algo_at.next().unwrap_or(0);
+        }
         let st = seq::run(ctx, &m, &m.label(), depth);
         evaluations += st.steps;
         sequences += st.sequences;
@@ -675,6 +787,19 @@ pub fn run(ctx: &Ctx) -> Outcome {
         sequences += words;
         distinct += d;
         tally(&m, long_len, words, steps, d, &mut per_cfg);
+    }
+    // very long histories: words of length <= 2 (engine: 1) repeated to 1100 / 4200 fills - positions
+    // holding more than 1024 / 4096 fills (whatever is bounded, rolled over or re-allocated by length)
+    let vlong_len = ctx.tier.pick(1100, 4200);
+    for (engine_layer, max_word) in [(false, 2usize), (true, 1usize)] {
+        let mut m = M::with(engine_layer, Alpha::Narrow, Times::Inc, SCALES[0]);
+        m.long = true;
+        m.vlong = true;
+        let (words, steps, d) = run_long(ctx, &m, max_word, vlong_len);
+        evaluations += steps;
+        sequences += words;
+        distinct += d;
+        tally(&m, vlong_len, words, steps, d, &mut per_cfg);
     }
     // non-vacuity: every kind of fill must have been exercised
     if arms_total.iter().any(|n| *n == 0) || closed_total == 0 {
@@ -694,7 +819,7 @@ pub fn run(ctx: &Ctx) -> Outcome {
             "sequences": sequences,
             "distinct_nontrivial": distinct,
             "exhaustive": true,
-            "rule": "all fill sequences of length <= max_len over side{Buy,Sell} x qty{1,2,3} x price{90,100,110} x fee{0,0.3} (36 symbols; '-narrow' configurations: qty{1,2} x price{100,110} = 16 symbols, deeper; '-mixed': qty{1e-8,1,1e8} x price{100,110} = 24 symbols; fresh trade id per fill), per layer (PositionManager::update_from_trade / Engine::process of an account Trade), magnitude variant and time-stamp pattern (increasing; '@equal', '@dec', '@zigzag'); '-long': every word of length <= 3 (engine: <= 2) over the narrow alphabet repeated cyclically up to max_len fills; ledger oracle R1..R6 evaluated after every fill",
+            "rule": "all fill sequences of length <= max_len over side{Buy,Sell} x qty{1,2,3} x price{90,100,110} x fee{0,0.3} (36 symbols; '-narrow' configurations: qty{1,2} x price{100,110} = 16 symbols, deeper; '-mixed': qty{1e-8,1,1e8} x price{100,110} = 24 symbols; '-dust': qty{1e-24,1,1+1e-24} x price{100,110} = 24 symbols; fresh trade id per fill), per layer (PositionManager::update_from_trade / Engine::process of an account Trade), magnitude variant and time-stamp pattern (increasing; '@equal', '@dec', '@zigzag'); '-long': every word of length <= 3 (engine: <= 2) over the narrow alphabet repeated cyclically up to max_len fills; '-vlong': words of length <= 2 (engine: 1) repeated to 1100 / 4200 fills; '+algo': engine layer with trading enabled and a strategy proposing an order on every even-numbered fill (the PositionExit is looked for among all outputs of the audit), '+algoX<k>': the same with the execution link closed and the order proposed after fill k only, which is the last of the sequence (unrecoverable error next to the PositionExit); ledger oracle R1..R6 evaluated after every fill",
             "steps_by_kind": {"open": arms_total[0], "increase": arms_total[1], "reduce": arms_total[2], "close": arms_total[3], "flip": arms_total[4]},
             "closed_records_emitted": closed_total,
             "per_configuration": per_cfg,
@@ -704,6 +829,7 @@ pub fn run(ctx: &Ctx) -> Outcome {
             "fills are on one instrument, price > 0, quantity > 0, fee >= 0 in the quote asset, fresh trade id per fill".into(),
             "every fill counts whatever its exchange timestamp (the statement quantifies over side, price, quantity, fee): equal, decreasing and zig-zag timestamps are driven besides increasing ones".into(),
             "value alphabets avoid Decimal overflow; 'up to decimal rounding' = 1e-18 of the gross cash flow + 1e-24 per fill".into(),
+            "quantities are exact decimals: a net quantity of 1e-24 is a position, not zero (no epsilon)".into(),
             "quantity_abs_max, timestamps and the cost-basis method itself are not constrained by the statement and are not judged".into(),
         ],
     }
